@@ -398,7 +398,295 @@ mod fixed2 {
     }
 }
 
-const FIXED2_DESC: &str = r#"(static2 (roots "Query" -) ((interface "Inner" (a - - false () (("marked" ("note" (s "m"))))) false ("Outer") ((f "id" (a - - false () ()) "Int!" ()))) (object "Leaf" (a - - false () ()) false ("Inner") ((f "id" (a - - false () ()) "Int!" ()) (f "old" (a - - false () ()) "Int!" ()))) (interface "Outer" (a - - false () ()) false () ((f "id" (a - - false () ()) "Int!" ()))) (object "Query" (a - - false () ()) false () ((f "outer" (a - - false () ()) "Outer" ())))) (ddefs (ddef "marked" - ((iv "note" (a - - false () ()) "String!" -)) false ("INTERFACE") -)))"#;
+/// a third family of derive-built schemas: custom directive DEFINITIONS (name, description,
+/// arguments with defaults, repeatable, locations, `composable` URL) taken from the case.  The
+/// derive attribute `directive = X::apply(..)` needs a type `X: TypeDirective`; the seven slot
+/// types below implement that public trait by hand (exactly what `#[TypeDirective]` expands to)
+/// reading their definition from a thread-local set before `Schema::build`.  Two more directives
+/// are defined through the macro itself: `linked` (plain composable URL) and, in variant B
+/// (`static4`), `hostile_url` (a composable URL containing quotes and a backslash).
+mod fixed3 {
+    #![allow(non_snake_case, dead_code, non_camel_case_types)]
+    use std::{borrow::Cow, cell::RefCell};
+
+    use async_graphql::{
+        indexmap::IndexMap,
+        registry::{MetaDirective, MetaDirectiveInvocation, MetaInputValue, Registry, __DirectiveLocation, location_traits::*},
+        *,
+    };
+
+    #[derive(Clone)]
+    pub struct ArgCfg {
+        pub name: String,
+        pub ty: String,
+        pub default: Option<Value>,
+    }
+
+    #[derive(Clone)]
+    pub struct Slot {
+        pub name: String,
+        pub desc: Option<String>,
+        pub args: Vec<ArgCfg>,
+        pub repeatable: bool,
+        pub locs: Vec<__DirectiveLocation>,
+        pub composable: Option<String>,
+        /// the arguments of the application at this slot
+        pub app: Vec<(String, Value)>,
+    }
+
+    thread_local! {
+        pub static SLOTS: RefCell<Vec<Slot>> = const { RefCell::new(Vec::new()) };
+    }
+
+    fn slot(i: usize) -> Slot {
+        SLOTS.with(|s| s.borrow()[i].clone())
+    }
+
+    macro_rules! slot_directive {
+        ($id:ident, $i:expr) => {
+            pub struct $id;
+            impl TypeDirective for $id {
+                fn name(&self) -> Cow<'static, str> {
+                    Cow::Owned(slot($i).name)
+                }
+                fn register(&self, registry: &mut Registry) {
+                    let s = slot($i);
+                    let mut args = IndexMap::new();
+                    for a in &s.args {
+                        let mut arg = MetaInputValue::new(a.name.clone(), a.ty.clone());
+                        arg.default_value = a.default.as_ref().map(|v| v.to_string());
+                        args.insert(a.name.clone(), arg);
+                    }
+                    registry.add_directive(MetaDirective {
+                        name: s.name.clone(),
+                        description: s.desc.clone(),
+                        locations: s.locs.clone(),
+                        args,
+                        is_repeatable: s.repeatable,
+                        visible: None,
+                        composable: s.composable.clone(),
+                    });
+                }
+            }
+            impl Directive_At_FIELD_DEFINITION for $id {}
+            impl Directive_At_OBJECT for $id {}
+            impl Directive_At_INPUT_FIELD_DEFINITION for $id {}
+            impl Directive_At_ARGUMENT_DEFINITION for $id {}
+            impl Directive_At_INPUT_OBJECT for $id {}
+            impl Directive_At_INTERFACE for $id {}
+            impl Directive_At_ENUM for $id {}
+            impl Directive_At_ENUM_VALUE for $id {}
+            impl $id {
+                pub fn apply() -> MetaDirectiveInvocation {
+                    let s = slot($i);
+                    MetaDirectiveInvocation { name: s.name, args: s.app.into_iter().collect() }
+                }
+            }
+        };
+    }
+
+    slot_directive!(S0, 0);
+    slot_directive!(S1, 1);
+    slot_directive!(S2, 2);
+    slot_directive!(S3, 3);
+    slot_directive!(S4, 4);
+    slot_directive!(S5, 5);
+    slot_directive!(S6, 6);
+
+    #[TypeDirective(location = "Object", composable = "https://custom.spec.dev/extension/v1.0")]
+    pub fn linked() {}
+
+    #[TypeDirective(location = "Object", location = "FieldDefinition", composable = "https://example.org/spec/\"v1\"\\n")]
+    pub fn hostile_url(note: Option<String>) {}
+
+    #[derive(Enum, Copy, Clone, Eq, PartialEq)]
+    #[graphql(directive = S2::apply())]
+    pub enum Kind {
+        #[graphql(directive = S3::apply())]
+        A,
+        B,
+    }
+
+    #[derive(InputObject)]
+    #[graphql(directive = S4::apply())]
+    pub struct Inp {
+        #[graphql(directive = S5::apply())]
+        pub x: Option<i32>,
+    }
+
+    #[derive(SimpleObject)]
+    #[graphql(directive = S0::apply())]
+    pub struct Item {
+        #[graphql(directive = S1::apply())]
+        pub a: i32,
+        pub k: Kind,
+    }
+
+    #[derive(SimpleObject)]
+    #[graphql(directive = linked::apply())]
+    pub struct Extra {
+        pub id: i32,
+    }
+
+    #[derive(SimpleObject)]
+    #[graphql(directive = hostile_url::apply(None))]
+    pub struct Odd {
+        pub id: i32,
+    }
+
+    pub struct QueryA;
+
+    #[Object(name = "Query")]
+    impl QueryA {
+        async fn item(&self, #[graphql(directive = S6::apply())] inp: Option<Inp>) -> Option<Item> {
+            None
+        }
+        async fn extra(&self) -> Option<Extra> {
+            None
+        }
+    }
+
+    pub struct QueryB;
+
+    #[Object(name = "Query")]
+    impl QueryB {
+        async fn item(&self, #[graphql(directive = S6::apply())] inp: Option<Inp>) -> Option<Item> {
+            None
+        }
+        async fn extra(&self) -> Option<Extra> {
+            None
+        }
+        async fn odd(&self) -> Option<Odd> {
+            None
+        }
+    }
+
+    pub fn location(s: &str) -> __DirectiveLocation {
+        use __DirectiveLocation::*;
+        match s {
+            "QUERY" => QUERY,
+            "MUTATION" => MUTATION,
+            "SUBSCRIPTION" => SUBSCRIPTION,
+            "FIELD" => FIELD,
+            "FRAGMENT_DEFINITION" => FRAGMENT_DEFINITION,
+            "FRAGMENT_SPREAD" => FRAGMENT_SPREAD,
+            "INLINE_FRAGMENT" => INLINE_FRAGMENT,
+            "VARIABLE_DEFINITION" => VARIABLE_DEFINITION,
+            "SCHEMA" => SCHEMA,
+            "SCALAR" => SCALAR,
+            "OBJECT" => OBJECT,
+            "FIELD_DEFINITION" => FIELD_DEFINITION,
+            "ARGUMENT_DEFINITION" => ARGUMENT_DEFINITION,
+            "INTERFACE" => INTERFACE,
+            "UNION" => UNION,
+            "ENUM" => ENUM,
+            "ENUM_VALUE" => ENUM_VALUE,
+            "INPUT_OBJECT" => INPUT_OBJECT,
+            "INPUT_FIELD_DEFINITION" => INPUT_FIELD_DEFINITION,
+            l => panic!("bad location {l}"),
+        }
+    }
+
+    pub fn export_a() -> Box<dyn Fn(SDLExportOptions) -> String> {
+        let s = Schema::build(QueryA, EmptyMutation, EmptySubscription).finish();
+        Box::new(move |o| s.sdl_with_options(o))
+    }
+
+    pub fn export_b() -> Box<dyn Fn(SDLExportOptions) -> String> {
+        let s = Schema::build(QueryB, EmptyMutation, EmptySubscription).finish();
+        Box::new(move |o| s.sdl_with_options(o))
+    }
+}
+
+const LINKED_URL: &str = "https://custom.spec.dev/extension/v1.0";
+const OTHER_URL: &str = "https://example.com/other/v2";
+const HOSTILE_MACRO_URL: &str = "https://example.org/spec/\"v1\"\\n";
+const LOCATIONS: &[&str] = &[
+    "QUERY", "MUTATION", "SUBSCRIPTION", "FIELD", "FRAGMENT_DEFINITION", "FRAGMENT_SPREAD", "INLINE_FRAGMENT",
+    "VARIABLE_DEFINITION", "SCHEMA", "SCALAR", "OBJECT", "FIELD_DEFINITION", "ARGUMENT_DEFINITION", "INTERFACE", "UNION",
+    "ENUM", "ENUM_VALUE", "INPUT_OBJECT", "INPUT_FIELD_DEFINITION",
+];
+
+/// the seven places of `fixed3` that carry a slot directive: (type, member, argument)
+const SLOT_SITES: &[(&str, Option<&str>, Option<&str>)] = &[
+    ("Item", None, None),
+    ("Item", Some("a"), None),
+    ("Kind", None, None),
+    ("Kind", Some("A"), None),
+    ("Inp", None, None),
+    ("Inp", Some("x"), None),
+    ("Query", Some("item"), Some("inp")),
+];
+
+/// the first directive application written in the case at a slot site
+fn site_app<'a>(types: &'a [Sexp], site: &(&str, Option<&str>, Option<&str>)) -> &'a Sexp {
+    let t = types.iter().find(|t| t.args()[0].as_str() == Some(site.0)).expect("slot type");
+    let q = t.args();
+    let attrs_of = |a: &'a Sexp| -> &'a Sexp { &a.args()[4].as_list().unwrap()[0] };
+    let Some(member) = site.1 else { return attrs_of(&q[1]) };
+    let members = q.last().unwrap().as_list().unwrap();
+    let m = members
+        .iter()
+        .find(|m| match m.tag() {
+            Some("f") | Some("iv") => m.args()[0].as_str() == Some(member),
+            _ => m.as_list().unwrap()[0].as_str() == Some(member),
+        })
+        .expect("slot member");
+    match (m.tag(), site.2) {
+        (Some("f"), Some(arg)) => {
+            let iv = m.args()[3].as_list().unwrap().iter().find(|iv| iv.args()[0].as_str() == Some(arg)).expect("slot argument");
+            attrs_of(&iv.args()[1])
+        }
+        (Some("f"), None) | (Some("iv"), _) => attrs_of(&m.args()[1]),
+        _ => attrs_of(&m.as_list().unwrap()[1]),
+    }
+}
+
+/// configure the slot directives of `fixed3` from the case: definition by name from `ddefs`,
+/// application arguments from the slot's site
+fn configure_slots(schema: &Sexp) {
+    let p = schema.args();
+    let types = p[1].as_list().unwrap();
+    let ddefs = p[2].args();
+    let slots = SLOT_SITES
+        .iter()
+        .map(|site| {
+            let app = site_app(types, site).as_list().unwrap();
+            let name = app[0].as_str().unwrap();
+            let d = ddefs.iter().find(|d| d.args()[0].as_str() == Some(name)).expect("slot definition").args();
+            fixed3::Slot {
+                name: name.to_string(),
+                desc: d[1].as_str().map(str::to_string),
+                args: d[2]
+                    .as_list()
+                    .unwrap()
+                    .iter()
+                    .map(|iv| {
+                        let q = iv.args();
+                        fixed3::ArgCfg {
+                            name: q[0].as_str().unwrap().to_string(),
+                            ty: q[2].as_str().unwrap().to_string(),
+                            default: if q[3].as_atom() == Some("-") { None } else { Some(value(&q[3])) },
+                        }
+                    })
+                    .collect(),
+                repeatable: b(&d[3]),
+                locs: d[4].as_list().unwrap().iter().map(|l| fixed3::location(l.as_str().unwrap())).collect(),
+                composable: d[5].as_str().map(str::to_string),
+                app: app[1..]
+                    .iter()
+                    .map(|kv| {
+                        let kv = kv.as_list().unwrap();
+                        (kv[0].as_str().unwrap().to_string(), value(&kv[1]))
+                    })
+                    .collect(),
+            }
+        })
+        .collect();
+    fixed3::SLOTS.with(|s| *s.borrow_mut() = slots);
+}
+
+const FIXED2_DESC: &str =r#"(static2 (roots "Query" -) ((interface "Inner" (a - - false () (("marked" ("note" (s "m"))))) false ("Outer") ((f "id" (a - - false () ()) "Int!" ()))) (object "Leaf" (a - - false () ()) false ("Inner") ((f "id" (a - - false () ()) "Int!" ()) (f "old" (a - - false () ()) "Int!" ()))) (interface "Outer" (a - - false () ()) false () ((f "id" (a - - false () ()) "Int!" ()))) (object "Query" (a - - false () ()) false () ((f "outer" (a - - false () ()) "Outer" ())))) (ddefs (ddef "marked" - ((iv "note" (a - - false () ()) "String!" -)) false ("INTERFACE") -)))"#;
 
 /// what the derive macros register for `fixed::schema()` (checked by the model tie on every run)
 const FIXED_DESC: &str = r#"(static (roots "Query" "Mutation") ((enum "Color" (a "A colour" - false () ()) (("RED" (a "like blood" - false () ())) ("GREEN" (a - (dep "too green") false () ())) ("BLUE" (a - (dep) false () ())))) (union "Either" (a - - false () ()) ("Thing" "Other")) (input "Filter" (a "Input with defaults" - false () ()) false ((iv "limit" (a "how many" - false () ()) "Int!" (i 5)) (iv "text" (a - - false () ()) "String!" (s "a\"b\\c")) (iv "ids" (a - - false () ()) "[Int!]!" (l (i 1) (i 2))) (iv "color" (a - - false () ()) "Color" -))) (object "Mutation" (a - - false () ()) false () ((f "touch" (a - (dep "gone") false () ()) "Boolean!" ((iv "id" (a - - false () ()) "Int!" -))))) (interface "Node" (a - - false () ()) false () ((f "id" (a "the id" - false () ()) "Int!" ()))) (object "Other" (a - - false () ()) false ("Node") ((f "id" (a - - false () ()) "Int!" ()) (f "flag" (a - - false () ()) "Boolean!" ()))) (input "Pick" (a - - false () ()) true ((iv "byId" (a - - false () ()) "Int" -) (iv "byName" (a "by its name" - false () ()) "String" -))) (object "Query" (a "The root\n\nsecond paragraph" - false () ()) false () ((f "things" (a "finds things" - false () ()) "[Thing!]!" ((iv "filter" (a "the filter" - false () ()) "Filter" -) (iv "first" (a - - false () ()) "Int!" (i 10)) (iv "after" (a - - false () ()) "String!" (s "x y")))) (f "pick" (a - - false () ()) "Either" ((iv "by" (a - - false () ()) "Pick!" -))) (f "node" (a - - false () ()) "Node" ((iv "color" (a - - false () ()) "Color!" (e "RED")))))) (object "Thing" (a "A thing with a \"quoted\" word" - false ("team-a") (("labelled" ("text" (s "on \"type\"")) ("weight" (i 3))))) false ("Node") ((f "id" (a "the id" - false () ()) "Int!" ()) (f "oldId" (a - (dep "use id") false () ()) "String!" ()) (f "label" (a - - false ("internal") (("labelled" ("text" (s "on field"))))) "String" ())))) (ddefs (ddef "labelled" - ((iv "text" (a - - false () ()) "String!" -) (iv "weight" (a - - false () ()) "Int" -)) false ("FIELD_DEFINITION" "OBJECT") -)))"#;
@@ -608,6 +896,14 @@ fn run(case: &Sexp, dist: &mut Dist) -> Sexp {
         "static2" => {
             let s = fixed2::schema();
             Box::new(move |o| s.sdl_with_options(o))
+        }
+        "static3" => {
+            configure_slots(schema);
+            fixed3::export_a()
+        }
+        "static4" => {
+            configure_slots(schema);
+            fixed3::export_b()
         }
         k => panic!("bad schema kind {k}"),
     };
@@ -917,9 +1213,144 @@ fn gen_schema(rng: &mut Rng, dist: &mut Dist) -> Sexp {
     )
 }
 
+/// a composable URL no exporter should write verbatim
+fn hostile_url(rng: &mut Rng) -> String {
+    let mut s = String::new();
+    if rng.chance(1, 2) {
+        s.push_str("https://e.org/");
+    }
+    let n = 1 + rng.below(3);
+    let at = rng.below(n);
+    for i in 0..n {
+        if i == at || rng.chance(1, 2) {
+            s.push_str(*rng.pick(NASTY));
+        } else {
+            s.push_str(*rng.pick(WORDS));
+        }
+    }
+    s
+}
+
+/// the `fixed3` family: slot directive definitions and applications drawn here, the type skeleton
+/// is the derive-built one.  `variant_b`: the root with the macro-defined `hostile_url` directive.
+fn gen_fixed3(rng: &mut Rng, variant_b: bool, dist: &mut Dist) -> Sexp {
+    // at most three distinct composable URLs per schema (the exporter groups them in a HashMap:
+    // the judge tries every order of the groups)
+    let second = if variant_b {
+        HOSTILE_MACRO_URL.to_string()
+    } else if rng.chance(2, 5) {
+        dist.hit("compose_url_hostile_schemas");
+        hostile_url(rng)
+    } else {
+        OTHER_URL.to_string()
+    };
+    let third = if !variant_b && rng.chance(1, 4) { Some(if rng.chance(1, 2) { hostile_url(rng) } else { "urn:x".to_string() }) } else { None };
+    let mut pool = vec![LINKED_URL.to_string(), second];
+    pool.extend(third);
+    let mut names = vec!["cd", "meta", "auth", "zeta", "Link_2", "_x"];
+    rng.shuffle(&mut names);
+    let ndefs = 1 + rng.below(4);
+    let a0 = || Sexp::parse("(a - - false () ())").unwrap();
+    let mut ddefs = vec![];
+    let mut argnames: Vec<Vec<&str>> = vec![];
+    for name in &names[..ndefs] {
+        let desc = if rng.chance(1, 3) { st(text(rng, dist)) } else { atom("-") };
+        let mut an = vec!["a", "name", "if", "url"];
+        rng.shuffle(&mut an);
+        let nargs = [0, 1, 1, 2][rng.below(4)];
+        let args: Vec<Sexp> = an[..nargs]
+            .iter()
+            .map(|n| {
+                let ty = { let base = *rng.pick(&["String", "Int", "Boolean", "ID"]); wrap(rng, base) };
+                let dv = if rng.chance(1, 3) { gen_value(rng, 1, dist) } else { atom("-") };
+                node("iv", vec![st(*n), a0(), st(ty), dv])
+            })
+            .collect();
+        argnames.push(an[..nargs].to_vec());
+        let mut locs: Vec<&str> = LOCATIONS.to_vec();
+        rng.shuffle(&mut locs);
+        let nlocs = 1 + rng.below(4);
+        let comp = if rng.chance(2, 5) {
+            atom("-")
+        } else {
+            dist.hit("composable_definitions");
+            st(rng.pick(&pool).clone())
+        };
+        ddefs.push(node(
+            "ddef",
+            vec![st(*name), desc, list(args), atom(rng.chance(1, 3).to_string()), list(locs[..nlocs].iter().map(|l| st(*l)).collect()), comp],
+        ));
+    }
+    let app = |rng: &mut Rng, dist: &mut Dist| {
+        let i = rng.below(ndefs);
+        let mut v = vec![st(names[i])];
+        for k in &argnames[i] {
+            if rng.chance(1, 2) {
+                v.push(list(vec![st(*k), gen_value(rng, 1, dist)]));
+            }
+        }
+        list(vec![list(v)])
+    };
+    let at = |d: Sexp| node("a", vec![atom("-"), atom("-"), atom("false"), list(vec![]), d]);
+    let apps: Vec<Sexp> = (0..SLOT_SITES.len()).map(|_| app(rng, dist)).collect();
+    // a `TypeDirective` is registered when it is applied: only the applied definitions exist
+    ddefs.retain(|d| apps.iter().any(|a| a.as_list().unwrap()[0].as_list().unwrap()[0].as_str() == d.args()[0].as_str()));
+    dist.add("slot_directive_definitions", ddefs.len() as u64);
+    let named = |n: &str| list(vec![list(vec![st(n)])]);
+    let mut types = vec![
+        node("enum", vec![st("Kind"), at(apps[2].clone()), list(vec![list(vec![st("A"), at(apps[3].clone())]), list(vec![st("B"), a0()])])]),
+        node("input", vec![st("Inp"), at(apps[4].clone()), atom("false"), list(vec![node("iv", vec![st("x"), at(apps[5].clone()), st("Int"), atom("-")])])]),
+        node(
+            "object",
+            vec![
+                st("Item"),
+                at(apps[0].clone()),
+                atom("false"),
+                list(vec![]),
+                list(vec![
+                    node("f", vec![st("a"), at(apps[1].clone()), st("Int!"), list(vec![])]),
+                    node("f", vec![st("k"), a0(), st("Kind!"), list(vec![])]),
+                ]),
+            ],
+        ),
+        node(
+            "object",
+            vec![st("Extra"), at(named("linked")), atom("false"), list(vec![]), list(vec![node("f", vec![st("id"), a0(), st("Int!"), list(vec![])])])],
+        ),
+    ];
+    let mut qfields = vec![
+        node("f", vec![st("item"), a0(), st("Item"), list(vec![node("iv", vec![st("inp"), at(apps[6].clone()), st("Inp"), atom("-")])])]),
+        node("f", vec![st("extra"), a0(), st("Extra"), list(vec![])]),
+    ];
+    ddefs.push(node("ddef", vec![st("linked"), atom("-"), list(vec![]), atom("false"), list(vec![st("OBJECT")]), st(LINKED_URL)]));
+    if variant_b {
+        types.push(node(
+            "object",
+            vec![st("Odd"), at(named("hostile_url")), atom("false"), list(vec![]), list(vec![node("f", vec![st("id"), a0(), st("Int!"), list(vec![])])])],
+        ));
+        qfields.push(node("f", vec![st("odd"), a0(), st("Odd"), list(vec![])]));
+        ddefs.push(node(
+            "ddef",
+            vec![
+                st("hostile_url"),
+                atom("-"),
+                list(vec![node("iv", vec![st("note"), a0(), st("String"), atom("-")])]),
+                atom("false"),
+                list(vec![st("OBJECT"), st("FIELD_DEFINITION")]),
+                st(HOSTILE_MACRO_URL),
+            ],
+        ));
+    }
+    types.push(node("object", vec![st("Query"), a0(), atom("false"), list(vec![]), list(qfields)]));
+    node(if variant_b { "static4" } else { "static3" }, vec![node("roots", vec![st("Query"), atom("-")]), list(types), node("ddefs", ddefs)])
+}
+
 fn gen_opts(rng: &mut Rng, dist: &mut Dist) -> Sexp {
     let mut v: Vec<Sexp> = (0..8).map(|_| atom(rng.chance(1, 2).to_string())).collect();
     v.push(atom([2usize, 2, 0, 1, 4, 7][rng.below(6)].to_string()));
+    if v[5] == atom("true") && v[6] == atom("true") {
+        dist.hit("opts_federation_compose");
+    }
     if v[5] == atom("true") {
         dist.hit("opts_federation");
     }
@@ -944,6 +1375,12 @@ fn gen_case(rng: &mut Rng, i: usize, _o: &Opts, dist: &mut Dist) -> Sexp {
     } else if i % 25 == 7 {
         dist.hit("static_schema");
         Sexp::parse(FIXED_DESC).expect("FIXED_DESC")
+    } else if i % 10 == 4 || i % 20 == 11 {
+        let variant_b = i % 20 == 11;
+        dist.hit(if variant_b { "static_schema_directive_slots_b" } else { "static_schema_directive_slots" });
+        let pct = [0, 0, 3, 10, 35][rng.below(5)];
+        NASTY_PCT.store(pct, std::sync::atomic::Ordering::Relaxed);
+        gen_fixed3(rng, variant_b, dist)
     } else {
         dist.hit("dynamic_schema");
         let pct = [0, 0, 0, 3, 10, 35][rng.below(6)];
